@@ -102,7 +102,9 @@ def opOracle (op : String) (c : Ctx) (x y : Dec) (iarg : Int) (o : Out) : List (
       if sqrtDoubleRoundingShape c x o.d then
         [("C11", s!"sqrt-double-rounding: root within 1e-guard ulp of a tie, rounded twice; expected m={s.m} q={s.q}")]
       else [("C11", s!"Sqrt is not the half-even rounding of the exact root: expected m={s.m} q={s.q} inf={s.inf}")]) ++
-    (if o.fl.inexact == s.inexact then [] else [("C11", s!"Sqrt Inexact={o.fl.inexact} but exact-root test says {s.inexact}")])
+    (if o.fl.inexact == s.inexact then [] else
+      [("C11", s!"Sqrt Inexact={o.fl.inexact} but exact-root test says {s.inexact}"),
+       ("C02", s!"Sqrt Inexact={o.fl.inexact} but the root is {if s.inexact then "not " else ""}exactly representable")])
   | "cbrt" =>
     if x.coeff == 0 || !(delivered o.err) then [] else
     if o.d.form != .finite then [] else
